@@ -541,8 +541,13 @@ def _execute(trace, ctx, ref_spec, tgt_spec, scale, n, m, ref_pos0, tgt_pos0):
 
     ref_live = ref_instance(ref_spec["positions"])
     tgt_live = gen.make_molecule(tgt_spec)
+    scale_arg = scale
+    if trace["np_seed"] % 3 == 0:
+        # the same number in another form: a Python int for whole numbers, a numpy scalar otherwise
+        scale_arg = int(scale) if float(scale).is_integer() else np.float64(scale)
+        ctx.probe("scale_as_int_or_numpy_scalar")
     try:
-        themap = ExchangeMap(ref_live, tgt_live, scale)
+        themap = ExchangeMap(ref_live, tgt_live, scale_arg)
     except Exception as e:
         ctx.op("construct", "raised")
         ctx.violate("C01", "construction-raised", f"ExchangeMap(ref, tgt, {scale}) raised {type(e).__name__}: {e}",
